@@ -43,6 +43,7 @@ def exec_cases(mod, cases: list[Case]) -> None:
             c.impl_out.append(im.run(line))
         if track and implmod.global_fingerprint() != before:
             c.meta["global_changed"] = True          # this case changed a module/class-level table of the code
+            implmod.global_restore()                  # the next case starts from the tables the code ships with
         if c.model_lines is None:
             c.model_lines = ml
     all_lines: list[str] = []
